@@ -29,10 +29,12 @@ CORPUS = os.path.join(VERIF, "corpus", "C14")
 
 # finding ids this builder reported; an id that is not (yet) listed in known_findings.json is treated as an open
 # region (alarms attributed, logged as a note) and kept out of probes() until the coordinator lists it
-CANDIDATES = (L.R_CSR8, L.R_LITTLE, L.R_AXIL_RD)
+CANDIDATES = (L.R_CSR8, L.R_LITTLE, L.R_AXIL_RD, L.R_UNALIGNED)
 
-QUICK = {"random_socs": 4, "mem": 500, "export": 400, "max_regs": 14, "sweeps": 3, "verdicts": 32, "irqs": 10}
-THOROUGH = {"random_socs": 80, "mem": 6000, "export": 4000, "max_regs": None, "sweeps": 48, "verdicts": 300, "irqs": 150}
+QUICK = {"random_socs": 4, "mem": 500, "export": 400, "max_regs": 14, "sweeps": 3, "verdicts": 32, "irqs": 10, "adapters": 30,
+         "mixed_extra": 1}
+THOROUGH = {"random_socs": 80, "mem": 6000, "export": 4000, "max_regs": None, "sweeps": 48, "verdicts": 300, "irqs": 150,
+            "adapters": 400, "mixed_extra": None}
 
 
 class Dis:
@@ -82,6 +84,46 @@ def grid(rng):
         cfg.pop("max_regs", None)
         for k_ in ("big_prob", "mem_prob", "shadow_prob", "wide_prob"):
             cfg.pop(k_, None)
+        out.append(cfg)
+    return out
+
+
+def _us(std, addressing="word", dw=None, origin=0x30000000, size=0x100, name="us0", **kw):
+    return dict({"name": name, "origin": origin, "size": size, "std": std, "addressing": addressing, "dw": dw}, **kw)
+
+
+# mixed-standard compositions: (bus, bus width, user slaves behind bus.add_slave, master variant).  The first two rows (a word
+# addressed wishbone core on a byte-addressed SoC bus; byte-addressed cores on a wishbone SoC) run in every quick run.
+MIXED = (
+    ("axi-lite", 32, [_us("wishbone"), _us("wishbone", "byte", origin=0x40000000, size=0xc0, name="us1")], None),
+    ("wishbone", 32, [_us("axi-lite", size=0x80), _us("wishbone", "byte", origin=0x40000000, name="us1")], None),
+    ("axi-lite", 64, [_us("wishbone", dw=32), _us("wishbone", dw=64, origin=0x40000000, name="us1")], None),
+    ("wishbone", 64, [_us("axi-lite", dw=32), _us("wishbone", "byte", origin=0x40000000, name="us1"),
+                      _us("wishbone", "word", dw=32, origin=0x50000000, size=0x180, name="us2")], None),
+    ("axi", 32, [_us("wishbone", size=0x80), _us("axi-lite", origin=0x40000000, size=0x80, name="us1")], None),
+    ("axi-lite", 32, [_us("wishbone", size=0x200)], {"std": "wishbone", "addressing": "word"}),
+    ("axi-lite", 32, [_us("wishbone"), _us("axi", origin=0x40000000, size=0x80, name="us1")], {"std": "wishbone", "addressing": "byte"}),
+    ("wishbone", 32, [_us("axi-lite"), _us("wishbone", origin=0x40000000, name="us1")], {"std": "axi-lite"}),
+    ("wishbone", 32, [_us("wishbone", "byte"), _us("axi", origin=0x40000000, size=0x80, name="us1")], {"std": "wishbone", "addressing": "byte"}),
+    ("wishbone", 32, [_us("wishbone", size=0xc0)], {"std": "axi"}),
+    ("axi", 64, [_us("wishbone", dw=32, size=0x80)], None),
+)
+
+
+def mixed_grid(rng, extra):
+    """Small SoCs (one two-register bank, one RAM) around user slaves of another standard / addressing / width."""
+    rows = list(range(len(MIXED)))
+    pick = rows[:2] + (rows[2:] if extra is None else rng.sample(rows[2:], extra))
+    out = []
+    for i in pick:
+        bus, dw, us, master = MIXED[i]
+        cfg = dict(bus=bus, bus_dw=dw, ic=rng.choice(("shared", "crossbar")), csr_dw=32, paging=0x800, ordering="big", csr_aw=14,
+                   csr_origin=0xf0000000, with_ctrl=False,
+                   periphs=[{"name": "p0", "regs": [{"kind": "storage", "name": "a", "size": 8}, {"kind": "storage", "name": "b", "size": 40}]}],
+                   rams=[{"name": "ram0", "origin": 0x10000000, "size": rng.choice((0x40, 0xc0))}],
+                   uslaves=[dict(u, salt=rng.getrandbits(16)) for u in us])
+        if master:
+            cfg["master"] = dict(master)
         out.append(cfg)
     return out
 
@@ -179,8 +221,10 @@ def mode_c(ctx, plan, dis):
             dis.append(Dis("correspondence", c["input"], c["line"][:300], c["real"][:300], ans[2 * k][:300]))
         if ans[2 * k + 1] != c["real2"]:
             dis.append(Dis("correspondence", c["input"], c["line2"][:300], c["real2"][:300], ans[2 * k + 1][:300]))
-        if c["alarm"]:
+        if c["alarm"] and not (c.get("tag") and c["tag"] in tolerated(ctx)):
             dis.append(Dis("oracle", c["input"], alarm="get_mem_data: " + c["alarm"]))
+        elif c["alarm"]:
+            ctx.cov.count("oracle.alarm.%s" % c["tag"])
         ctx.cov.count("mem.q=%d" % c["input"]["q"])
         ctx.cov.count("mem.big=%d" % c["input"]["big"])
         ctx.cov.count("mem.tail=%d" % (len(c["input"]["bytes"]) % (4 * c["input"]["q"]) != 0))
@@ -223,11 +267,29 @@ def run_sweeps(ctx, plan, dis):
         verdicts = pool.map(L.verdict_task, [(rng.getrandbits(32),) for _ in range(plan["verdicts"])], chunksize=4)
         irqs = pool.map(L.irq_task, [(rng.getrandbits(32),) for _ in range(plan["irqs"])], chunksize=2)
         consts = pool.map(L.const_task, [(rng.getrandbits(32),) for _ in range(plan.get("consts", 20))], chunksize=5)
-    for group in (sweeps, verdicts, irqs, consts):
+    with _pool() as pool:
+        adapters = pool.map(L.adapter_task, [(rng.getrandbits(32),) for _ in range(plan.get("adapters", 40))], chunksize=8)
+    for group in (sweeps, verdicts, irqs, consts, adapters):
         for c in list(group):
             if c.get("crash"):
                 dis.append(Dis("crash", c["input"], alarm=c["crash"]))
                 group.remove(c)
+    # add_adapter alone: addresses driven through the real adapters against chainWord / masterBus / convS2M / convM2S
+    flat = [(c, l, r) for c in adapters for l, r in c["lines"]]
+    ans = ctx.lean.call_batch([l for _, l, _ in flat]) if flat else []
+    nbad = 0
+    for (c, l, r), a in zip(flat, ans):
+        ctx.cov.count("lean." + l.split()[0])
+        if a != r:
+            nbad += 1
+            if nbad <= 3:
+                dis.append(Dis("correspondence", c["input"], l, r, a))
+    for c in adapters:
+        for a_ in c["alarms"][:2]:
+            dis.append(Dis("oracle", c["input"], alarm=a_))
+        ctx.cov.count("adapter.%s.%s.%s" % (c["input"].get("std"), c["input"].get("direction"), c["input"].get("interface")))
+    ctx.cov.add_cases("SoCBusHandler.add_adapter alone (bus standard x width x direction x interface kind): addresses driven "
+                      "through the real adapters", len(adapters), len(adapters), False)
     # constants: add_constant histories against addConstants
     ans = ctx.lean.call_batch([c["line"] for c in consts])
     for c, a in zip(consts, ans):
@@ -315,6 +377,9 @@ def correspond(ctx):
     for _ in range(plan["random_socs"]):
         cfg = L.gen_cfg(rng)
         jobs.append((cfg, rng.getrandbits(32), cap(cfg), mw))
+    rng_m = random.Random(ctx.rng.getrandbits(48))
+    for cfg in mixed_grid(rng_m, plan["mixed_extra"]):
+        jobs.append((cfg, rng_m.getrandbits(32), None, 20 if quick else None))
     # slow simulations first so the pool stays busy
     jobs.sort(key=lambda j: (j[0]["csr_dw"] != 8 or j[0]["bus"] == "wishbone", j[0]["bus"] != "axi", j[0]["bus"] != "axi-lite"))
     run_socs(ctx, jobs, dis, "end-to-end SoCs: every exported address accessed through the bus master")
@@ -329,7 +394,10 @@ def correspond(ctx):
         "AXI-Lite presents the bus-word address, AXI4 a narrow single beat)",
         "interrupt numbers are checked end-to-end only (SoCCore around a harness-side stub CPU with 32 interrupt lines); "
         "they have no Lean model (the export is the identity on SoCIRQHandler.locs, whose allocation is C13)",
-        "CSR memories wider than the CSR bus word or deeper than a page (paged access) are outside the grid",
+        "CSR memories that are wider than the CSR bus word AND deeper than a page at once are built and exported but their "
+        "paged window is not driven (each of the two alone is)",
+        "memory-backed slaves are walked over their whole published window in the thorough tier and over first/last/quarter/"
+        "power-of-two words in the quick tier; every store is checked against the whole backing memory (exactly one cell changes)",
     ]
     tol = tolerated(ctx)
     listed = {e["id"] for e in ctx.known}
@@ -416,7 +484,9 @@ def probes(ctx):
 # failing-input search / replay
 
 def _bad_alarms(rec, tol):
-    return [t for g, t in rec["alarms"] if g is None or g not in tol]
+    """Unattributed alarms, the most concrete first (an access on the real bus that reached the wrong register / cell)."""
+    al = [t for g, t in rec["alarms"] if g is None or g not in tol]
+    return sorted(al, key=lambda t: 0 if ("on the real bus strobes" in t or "of the published window" in t or "published address" in t) else 1)
 
 
 def shrink_soc(inp, tol, budget_s=60):
@@ -447,6 +517,10 @@ def shrink_soc(inp, tol, budget_s=60):
                     d = copy.deepcopy(c); del d["periphs"][k]["regs"][j]; yield d
             if p.get("loc") is not None:
                 d = copy.deepcopy(c); d["periphs"][k].pop("loc"); yield d
+        for k in range(len(c.get("uslaves", []))):
+            d = copy.deepcopy(c); del d["uslaves"][k]; yield d
+        if c.get("master"):
+            d = copy.deepcopy(c); d.pop("master"); yield d
         for key, val in (("second_master", False), ("with_ctrl", False), ("csr_origin", 0), ("ic", "shared"), ("bus_dw", 32),
                          ("bus", "wishbone"), ("csr_aw", 14)):
             if c.get(key) not in (val, None) or (key == "with_ctrl" and c.get(key, True)):
@@ -498,7 +572,7 @@ def search(ctx, disagreements, proof_info):
         try:
             for _ in range(300):
                 c = L.mem_image_case(rng, tmp)
-                if c["alarm"]:
+                if c["alarm"] and not (c.get("tag") and c["tag"] in tol):
                     return {"input": c["input"], "oracle": c["alarm"]}
         finally:
             shutil.rmtree(tmp, ignore_errors=True)
@@ -520,6 +594,10 @@ def replay(ctx, payload):
         if rec["verdict"] == "crash":
             print(rec.get("crash"))
         return 1 if bad or rec["verdict"] == "crash" else 0
+    if inp.get("kind") == "adapter":
+        r = L.adapter_task((inp["seed"],))
+        print("add_adapter:", {k: v for k, v in inp.items() if k != "kind"}, "alarms:", r["alarms"][:4], r.get("crash", ""))
+        return 1 if r["alarms"] or r.get("crash") else 0
     if inp.get("kind") == "irq":
         r = L.irq_task((inp["seed"],))
         print("irqs:", r.get("irqs"), "alarms:", r["alarms"], r.get("crash", ""))
